@@ -163,3 +163,152 @@ def percentage_kernel():
     if str(g.check()) != "sat":
         return {"verdict": "ERROR", "queries": queries, "detail": "vacuity guard failed"}
     return {"verdict": "CONFIRMED", "queries": queries + 1, "detail": "unsat at all 3 sites: the percentage test equals the exact comparison"}
+
+
+# ------------------------------------------------------------------------------------------------ executor lemmas (world: harness/exec_world.py)
+from harness import exec_world as XW  # noqa: E402
+
+ASSUMPTIONS = ASSUMPTIONS + XW.ASSUMPTIONS_EXEC
+XFUNCS = ["concurrency.executor.ConcurrentExecutor.execute/_on_task_complete/should_execution_suspend/_create_result/_execute_item_in_child_context",
+          "concurrency.executor.TimerScheduler.*", "concurrency.models.ExecutableWithState.*", "concurrency.models.ExecutionCounters.*",
+          "concurrency.models.BatchResult.from_items", "operation.child.child_handler", "operation.map.MapExecutor", "operation.parallel.ParallelExecutor"]
+BEH = [("ok", None), ("fail", "boom"), ("never",), ("park",)]
+
+
+def spec_decided(s, f, t, ms, tc):
+    all_done = s + f == t
+    min_reached = s >= (ms if ms is not None else t)
+    tol = (tc is not None and f > tc) or (tc is None and f > 0)
+    return all_done or min_reached or tol
+
+
+def _mk_exec(n, is_map, mc_fixed=None, interleave=None):
+    def lem(b0: int, b1: int, b2: int, has_min: bool, ms: int, has_tc: bool, tc: int, mc: int, c0: int, c1: int, c2: int):
+        """
+        pre: 0 <= b0 < 4 and 0 <= b1 < 4 and 0 <= b2 < 4
+        pre: 1 <= ms <= 3 and 0 <= tc <= 2 and 0 <= mc <= 2 and 0 <= c0 < 3 and 0 <= c1 <= 14 and 0 <= c2 < 3
+        post: True
+        """
+        kinds = [b0, b1, b2][:n]
+        if has_min and ms > max(n, 1):
+            return
+        if mc_fixed is not None and mc != mc_fixed:
+            return
+        if interleave is None:
+            if c1 != 0 or c2 != 0:
+                return      # policy lemmas: only the order in which running branches finish is solver-chosen; done-callbacks run atomically
+        else:
+            # interleaving lemmas: fixed policy, both branches finish; the solver interleaves the two done-callbacks and the released caller
+            want_min, want_tc = interleave
+            if has_min != (want_min is not None) or (has_min and ms != want_min) or has_tc != (want_tc is not None) or (has_tc and tc != want_tc) or mc != 0:
+                return
+            if b0 > 1 or b1 > 1:
+                return
+        beh = []
+        never = []
+        for i, k in enumerate(kinds):
+            if BEH[k][0] == "ok":
+                beh.append(("ok", (i, "v")))
+            elif BEH[k][0] == "never":
+                beh.append(("ok", (i, "late")))
+                never.append(i)
+            else:
+                beh.append(BEH[k])
+        script = XW.Script(beh)
+        cfg = CompletionConfig(ms if has_min else None, tc if has_tc else None, None)
+        world = XW.World(choices=[c0], never=never, preempt=[(c1, c2)] if interleave is not None else ())
+        ex = XW.make_executor(script, is_map, cfg, mc if mc > 0 else None)
+        state = {"s": 0, "f": 0, "parked": 0}
+
+        def on_action(w):
+            # only at points where no done-callback is in flight (every finished branch has been fully accounted for)
+            if not all(c["done"] for c in w.callbacks):
+                return
+            s = sum(1 for i in range(n) if script.entries[i] > 0 and script.b[i][0] == "ok" and i not in never)
+            f = sum(1 for i in range(n) if script.entries[i] > 0 and script.b[i][0] == "fail")
+            p = sum(1 for i in range(n) if script.entries[i] > 0 and script.b[i][0] == "park")
+            decided = spec_decided(s, f, n, cfg.min_successful, cfg.tolerated_failure_count)
+            all_parked_or_done = (s + f + p == n) and p > 0
+            h.check(ex._completion_event.is_set() == (decided or all_parked_or_done),
+                    "execute() must be released exactly when the policy is decided (or every unfinished branch is parked) - not earlier, not later")
+
+        world.on_action = on_action
+        (kind, val), st = XW.run_execute(ex, world)
+        pool = XW.VExecPool.last
+        if n == 0:
+            h.reach("zero")
+            h.check(kind == "ret", "a map/parallel over zero items must return an empty result, not raise or hang")
+            h.check(len(val.all) == 0)
+            h.end()
+            return
+        h.check(pool.max_workers == (mc if mc > 0 else n), "pool size must be the configured concurrency limit (or the item count)")
+        h.check(pool.max_running_seen <= (mc if mc > 0 else n), "more branches ran at once than the concurrency limit allows")
+        s = sum(1 for i in range(n) if script.entries[i] > 0 and script.b[i][0] == "ok" and i not in never)
+        f = sum(1 for i in range(n) if script.entries[i] > 0 and script.b[i][0] == "fail")
+        p = sum(1 for i in range(n) if script.entries[i] > 0 and script.b[i][0] == "park")
+        if kind == "deadlock":
+            # only legitimate if some branch never finishes and the policy cannot be decided without it
+            h.check(len(never) > 0 and not spec_decided(s, f, n, cfg.min_successful, cfg.tolerated_failure_count),
+                    "execute() hangs although the policy is decided or every branch has finished/parked")
+            h.reach("blocked")
+            h.end()
+            return
+        if kind == "suspend":
+            h.reach("suspended")
+            h.check(not spec_decided(s, f, n, cfg.min_successful, cfg.tolerated_failure_count), "suspended although the completion policy was decided")
+            h.check(p > 0 and s + f + p == n, "suspended while a branch was still running or had not started")
+            h.end()
+            return
+        h.check(kind == "ret", "execute() raised")
+        h.reach("returned")
+        res = val
+        h.check(spec_decided(s, f, n, cfg.min_successful, cfg.tolerated_failure_count), "returned before the policy was decided")
+        h.check(len(res.all) == n and [it.index for it in res.all] == list(range(n)), "one item per input, in input order")
+        accounted = {id(c["future"]) for c in world.callbacks if c["done"]}
+        done_idx = {f.args[1].index for f in world.finished_order if id(f) in accounted}
+        for i, it in enumerate(res.all):
+            ran = script.entries[i] > 0
+            if it.status is BatchItemStatus.SUCCEEDED:
+                h.check(ran and script.b[i][0] == "ok" and i not in never and it.result == (i, "v"), "an item reported succeeded must carry that branch's own result")
+            elif it.status is BatchItemStatus.FAILED:
+                h.check(ran and script.b[i][0] == "fail" and it.error is not None and it.error.message == "boom", "an item reported failed must carry that branch's own error")
+            else:
+                h.check(it.result is None and it.error is None)
+                h.check(not (i in done_idx and script.b[i][0] in ("ok", "fail")),
+                        "a branch whose completion was fully recorded before the decision is reported as started")
+        want = BatchResult.from_items(res.all, cfg).completion_reason
+        h.check(res.completion_reason is want)
+        if res.completion_reason is CompletionReason.ALL_COMPLETED:
+            h.check(all(it.status is not BatchItemStatus.STARTED for it in res.all), "ALL_COMPLETED although an item is reported as started")
+        if res.completion_reason is CompletionReason.MIN_SUCCESSFUL_REACHED:
+            h.check(cfg.min_successful is not None and res.success_count >= cfg.min_successful, "MIN_SUCCESSFUL_REACHED without enough succeeded items")
+        h.end()
+
+    lem.__name__ = lem.__qualname__ = (f"executor_{n}_branches_{'map' if is_map else 'parallel'}" + (f"_mc{mc_fixed}" if mc_fixed is not None else "")
+                                       + (f"_interleave_min{interleave[0]}_tol{interleave[1]}" if interleave is not None else ""))
+    reach = ("end", "zero") if n == 0 else (("end", "returned", "suspended") + (("blocked",) if n >= 2 else ()))
+    if interleave is not None:
+        reach = ("end", "returned")
+    return h.lemma(timeout=600, thorough_timeout=2400, funcs=XFUNCS, reach=reach, tier="quick" if n <= 2 else "thorough",
+                   bounds=f"{n} branches of a {'map' if is_map else 'parallel'}, each: succeeds / fails / never finishes / parks on a callback; min_successful None or 1..3, "
+                          "tolerated_failure_count None or 0..2; max_concurrency None/1/2; which running branch finishes next is solver-chosen; in the *_interleave_* lemmas one solver-chosen preemption (action number 0..14, target activity) of a running done-callback")(lem)
+
+
+for _n in (0, 1, 2):
+    for _m in (True, False):
+        _f = _mk_exec(_n, _m)
+        globals()[_f.__name__] = _f
+for _il in ((None, None), (1, None), (None, 1)):
+    _f = _mk_exec(2, False, None, _il)
+    globals()[_f.__name__] = _f
+for _m in (True, False):
+    for _c in (0, 1, 2):
+        _f = _mk_exec(3, _m, _c)
+        globals()[_f.__name__] = _f
+del _f, _n, _m, _c, _il
+
+# "...the same batch result is delivered when the call is replayed": real ConcurrentExecutor.replay (lemma shared with C16)
+from harness import C16 as _C16  # noqa: E402
+
+replay_same_batch_result = _C16.batch_replay
+replay_same_batch_result.__module__ = __name__
